@@ -30,6 +30,7 @@ pub fn gen(seed: u64, tier: Tier) -> ScenarioSpec {
             spec.live = Some(gen_live(&mut rng, len, 0));
         }
     }
+    spec.knobs.insert("prelude".into(), gen_prelude(&mut rng, &[1, 4, 5], 8));
     spec
 }
 
@@ -37,6 +38,7 @@ pub fn run(spec: &ScenarioSpec, ctx: &mut Ctx) -> Result<(), Violation> {
     let m = recorder::build(&spec.recorder);
     ctx.rep.sim_time_ns += m.sim_time_ns();
     shape_of_model(ctx, &m, spec);
+    prelude(spec.knob("prelude"), spec.seed, &m, ctx);
     ctx.shape("api", (spec.api == Api::Incremental) as u64);
     if spec.api == Api::Incremental {
         return s2::run(spec, &m, ctx, P, s2::Flags { model_rows: false, row_view: true, protocol: false, final_equiv: false });
